@@ -356,8 +356,8 @@ def witness_f2():
 def parse_row(row, nd, nv):
     row = [int(x) for x in row]
     p = 0
-    o = {"code": row[0], "newid": row[1], "now": row[2], "supply": row[3], "offset": row[4], "swo": row[5]}
-    p = 6
+    o = {"code": row[0], "newid": row[1], "now": row[2], "supply": row[3], "offset": row[4], "swo": row[5], "bonded": row[6]}
+    p = 7
     o["mult"], o["pin"] = [], []
     for _ in range(nd):
         o["mult"].append(row[p])
@@ -391,7 +391,7 @@ def parse_row(row, nd, nv):
 
 def model_flat(o, nd, nv):
     """the part of a row the Coq model reproduces, in the order of C11/Corr.v flat_row"""
-    f = [o["code"], o["newid"], o["now"], o["supply"], o["offset"]]
+    f = [o["code"], o["newid"], o["now"], o["supply"], o["offset"], o["bonded"]]
     f += o["mult"]
     for t, s in o["vals"]:
         f += [t, s]
@@ -528,7 +528,7 @@ def coq_case(c, o):
     vals = "[" + "; ".join("(%s, mkVal %s %s)" % (zlit(v), zlit(t), zlit(s)) for v, (t, s) in enumerate(r0["vals"])) + "]"
     mults = "[" + "; ".join("(%s, %s)" % (zlit(d), zlit(m)) for d, m in enumerate(r0["mult"])) + "]"
     dn = "[" + "; ".join(zlit(d) for d in range(nd)) + "]"
-    return "mkCase %s %s %s %s %s %s %s\n   [%s]\n   %s" % (cfg, zlit(r0["now"]), vals, mults, zlit(r0["supply"]), zlit(r0["offset"]), dn,
+    return "mkCase %s %s %s %s %s %s %s %s\n   [%s]\n   %s" % (cfg, zlit(r0["now"]), vals, mults, zlit(r0["supply"]), zlit(r0["offset"]), zlit(r0["bonded"]), dn,
                                                             ";\n    ".join(ops), zlist(exp))
 
 
@@ -889,7 +889,7 @@ def selftest():
     res = []
     res.append(("clean observation: oracle silent", oracle(c, o) == []))
     res.append(("clean observation: case_ok accepts", _coq_accepts(c, o)))
-    base = 6 + 3 * nd + 2 * nv          # first account block; fields: exists, shares, tokens, expected, stk, ustk, bal
+    base = 7 + 3 * nd + 2 * nv          # first account block; fields: exists, shares, tokens, expected, stk, ustk, bal
 
     def perturbed(row, idx, delta=1):
         p = copy.deepcopy(o)
